@@ -260,10 +260,18 @@ def targetValid (t : MTarget) : Bool :=
 
 def memAttrValid (a : MemAttr) : Bool := decide (a.flags < 2 ^ 64) && a.targets.all targetValid
 
-/-- hwloc__internal_memattr_set_value on the target array of one attribute: hwloc__memattr_get_target(create = 1) finds the target
-    by (type, gp_index) or appends it; hwloc__memattr_target_get_initiator(create = 1) finds the initiator or appends it -/
-def setInit (l : List (Init × Nat)) (i : Init) (v : Nat) : List (Init × Nat) :=
-  if l.any (fun x => x.1 == i) then l.map (fun x => if x.1 == i then (x.1, v) else x) else l ++ [(i, v)]
+/-- match_internal_location(new, existing): a cpuset initiator matches an existing one that INCLUDES it (hwloc_bitmap_isincluded),
+    an object initiator one with the same type and gp_index -/
+def matchInit (i x : Init) : Bool :=
+  match i, x with
+  | .cpuset m, .cpuset e => (m &&& e) == m
+  | .obj t g, .obj t' g' => t == t' && g == g'
+  | _, _ => false
+
+/-- hwloc__memattr_target_get_initiator(create = 1) + the store of the value: the FIRST matching initiator, else a new last one -/
+def setInit : List (Init × Nat) → Init → Nat → List (Init × Nat)
+  | [], i, v => [(i, v)]
+  | x :: l, i, v => if matchInit i x.1 then (x.1, v) :: l else x :: setInit l i v
 
 def applyCall (t : MTarget) (c : Call) : MTarget :=
   match c.init with
@@ -272,22 +280,25 @@ def applyCall (t : MTarget) (c : Call) : MTarget :=
 
 def sameTarget (t : MTarget) (c : Call) : Bool := t.type == c.type && t.gp == c.gp
 
-def setValue (ts : List MTarget) (c : Call) : List MTarget :=
-  if ts.any (fun t => sameTarget t c) then ts.map (fun t => if sameTarget t c then applyCall t c else t)
-  else ts ++ [applyCall { type := c.type, gp := c.gp } c]
+/-- hwloc__internal_memattr_set_value on the target array of one attribute: hwloc__memattr_get_target(create = 1) finds the FIRST
+    target with that (type, gp_index) or appends one -/
+def setValue : List MTarget → Call → List MTarget
+  | [], c => [applyCall { type := c.type, gp := c.gp } c]
+  | t :: l, c => if sameTarget t c then applyCall t c :: l else t :: setValue l c
 
 def rebuild (cs : List Call) : List MTarget := cs.foldl setValue []
 
 /-- the hypotheses under which the calls rebuild the exported array: the targets of an attribute are pairwise different objects
     (hwloc__memattr_get_target never creates a second entry for one object), and with NEED_INITIATOR every target has at least one
-    initiator (a target without any is not written at all) and its initiators are pairwise different locations -/
+    initiator (a target without any is not written at all) and no initiator matches (match_internal_location: equal object, cpuset
+    INCLUDED) one that precedes it in the array — otherwise the importer merges the two (known finding F59) -/
 def distinctKeys : List MTarget → Bool
   | [] => true
   | t :: l => !(l.any (fun u => u.type == t.type && u.gp == t.gp)) && distinctKeys l
 
 def distinctInits : List (Init × Nat) → Bool
   | [] => true
-  | iv :: l => !(l.any (fun x => x.1 == iv.1)) && distinctInits l
+  | iv :: l => !(l.any (fun x => matchInit x.1 iv.1)) && distinctInits l        -- no later initiator matches an earlier one
 
 def memAttrWF (a : MemAttr) : Bool :=
   distinctKeys a.targets && (!needInit a.flags || a.targets.all (fun t => !t.inits.isEmpty && distinctInits t.inits))
